@@ -38,6 +38,18 @@ for _k, _perm in enumerate(list(itertools.permutations(["aa", "mm", "zz"])) * 2)
     DISK[_b] = 'let c = import "./%s";\nlet w = c.v;\n' % _c
     DISK[_a] = 'let c = import "./%s";\nlet b = import "./%s";\nlet z = b.w + "s";\n' % (_c, _b)
 
+# The same two import levels through sub-directories and `../`: main imports d1/x, which imports ../d2/y. The start-up
+# index must analyse y before x whatever order the directory walk lists them in (added after a seeded change to the
+# import scanner — paths with `..` no longer normalised — went unnoticed with files in one directory).
+SUBTRI = []
+for _k, (_d1, _d2) in enumerate([("app", "lib"), ("lib", "app"), ("zz", "aa"), ("aa", "zz"), ("m1", "m0"), ("m0", "m1"), ("b", "a"), ("a", "b")]):
+    _x, _y, _m = "%s%d/x.ucg" % (_d1, _k), "%s%d/y.ucg" % (_d2, _k), "main%d.ucg" % _k
+    _files = [(_y, "let n = 1;\n"), (_x, 'let y = import "../%s";\nlet v = y.n;\n' % _y)]
+    for _n, _t in (_files if _k % 4 < 2 else _files[::-1]):       # both creation orders
+        DISK[_n] = _t
+    DISK[_m] = 'let x = import "./%s";\nlet r = x.v + "s";\n' % _x
+    SUBTRI.append((_m, _x, _y))
+
 RICH = ('// doc comment\nlet t = {\n    a = 1,\n    "b c" = [1, 2],\n};\nlet f = func (p) => p + t.a;\nlet s = select ("a", 0) => {\n    a = f(1),\n};\n'
         'let m = module {q = 1} => (r) {\n    let r = mod.q;\n};\nlet z = "@ @" % (1, m{});\n')
 TEXTS = {
@@ -73,6 +85,8 @@ CORE = {"a.ucg": ["valid-import", "valid", "syntax-first-line", "type-error", "n
 def make_ws():
     d = tempfile.mkdtemp(prefix="ucgverif-c20-")
     for n, t in DISK.items():
+        if "/" in n:
+            os.makedirs(os.path.join(d, os.path.dirname(n)), exist_ok=True)
         with open(os.path.join(d, n), "w") as f:
             f.write(t)
     return d
@@ -545,6 +559,11 @@ def run(ctx):
                 traces.append([("open", first, "disk:" + first), (kind, a, "disk:" + a)])
         traces.append([("open", a, "disk:" + a)])
         traces.append([("open", b, "disk:" + b), ("close", b), ("open", a, "disk:" + a)])
+    for m, x, y in SUBTRI:
+        traces.append([("open", m, "disk:" + m)])
+        for first in (x, y):
+            traces.append([("open", first, "disk:" + first), ("close", first), ("open", m, "disk:" + m)])
+            traces.append([("open", first, "disk:" + first), ("open", m, "disk:" + m)])
     ctx.bounds = {"documents": 2, "texts": len(TEXTS), "alphabet": len(full), "sequence_length": 4 if thorough else 3, "traces": len(traces)}
     ctx.rule = ("all sequences of 1..2 notifications over the full alphabet (2 documents x {open, change} x 5 texts + close = %d messages), all of "
                 "length 3 over %s and, thorough, length 4 over the 3-text alphabet, legal and protocol-violating ones alike, each replayed "
@@ -574,7 +593,9 @@ def run(ctx):
             else:
                 model[st[1]] = st[2]
             states.add(json.dumps(sorted(model.items())))
-    for part in core.pmap(work_requests, list(TEXTS), chunk=1):
+    # (the files of the sub-directory triangles are there for the traces; as texts for the request sweeps they are the
+    # import-field-chain text over again)
+    for part in core.pmap(work_requests, [t for t in TEXTS if not (t.startswith("disk:") and "/" in t)], chunk=1):
         ctx.count(part["evals"], part["evals"])
         for k, v in part["hist"].items():
             ctx.outcome(k, v)
